@@ -457,3 +457,11 @@ pub(crate) fn n_holes(l: &Layout) -> usize {
 pub(crate) fn n_regions(l: &Layout) -> usize {
     l.start_to_region.len()
 }
+
+/// Stub for `Layout::promote_pending_holes` in operation-level harnesses (the real function is
+/// decided by the c02_l1_promote_* harnesses): records *when* promotion happens as a ghost event
+/// and performs the promotion without coalescing (sufficient for the callers' post-conditions).
+pub(crate) fn promote_stub(l: &mut Layout, _name: &str) {
+    anydb_verif_platform::ghost::log(anydb_verif_platform::ghost::K::Pause, 99, l.pending_holes.len(), 0);
+    l.pending_holes.clear();
+}
